@@ -237,7 +237,7 @@ PROPS['C13'] = floor_prop(
     families=[('floorm', 120, 2500), ('floor', 80, 1500), ('floorc', 40, 800)])
 PROPS['C13']['monitors'] = M.MONITORS['C13'] + M.MONITORS['C03']
 PROPS['C15'] = floor_prop(
-    'C15', ['SimProc.Props.C15'], ['SimProc/Props/C15.lean'],
+    'C15', ['SimProc.Props.C15', 'SimProc.Props.Facts'], ['SimProc/Props/C15.lean'],
     {'rec': None, 'd': _c.fields('lvl', 'prod', 'recv'), 'r': None, 'res': _c.only(('shut',))},
     ('rec ',), 'non-trivial = records were written',
     families=[('floor', 100, 2000), ('floors', 100, 2000), ('maint', 60, 1000), ('sched', 60, 1000), ('rm', 60, 1000)])
